@@ -49,7 +49,8 @@ func (k *keyV1) Encode(writer io.Writer) (int, error) {
 }
 
 func (k *keyV1) Decode(reader io.Reader) error {
-	bytes, err := io.ReadAll(io.LimitReader(reader, int64(keyV1BodyLen)))
+	// The table layer accepts user keys of up to V1KeyLen bytes; the body is one type byte longer.
+	bytes, err := io.ReadAll(io.LimitReader(reader, int64(1+V1KeyLen)))
 	if err != nil {
 		return err
 	}
